@@ -134,7 +134,79 @@ impl Loader for MemLoader {
     }
 }
 
-pub fn compile(item: &Item, yield_in_loader: bool) -> Res {
+/// rsass' own `FsLoader`, ONE instance shared by every compilation of the execution that asks for it
+/// (`item.via_cwd`), over a file system that exists only in memory: what a loader keeps inside itself
+/// is shared state like any other once two threads hold the same loader.
+#[derive(Debug)]
+struct SharedFs {
+    inner: Arc<rsass::input::FsLoader>,
+    yield_in_loader: bool,
+}
+
+impl Loader for SharedFs {
+    type File = <rsass::input::FsLoader as Loader>::File;
+    fn find_file(&self, url: &str) -> Result<Option<Self::File>, LoadError> {
+        if self.yield_in_loader {
+            shuttle::thread::sleep(std::time::Duration::ZERO);
+        }
+        self.inner.find_file(url)
+    }
+}
+
+/// The in-memory file system below the shared FsLoader: every item has a directory named by its digest.
+struct MapBackend {
+    files: BTreeMap<String, Vec<u8>>,
+}
+
+fn norm_path(p: &std::path::Path) -> String {
+    let mut out: Vec<&str> = vec![];
+    for c in p.to_str().unwrap_or("").split('/') {
+        match c {
+            "" | "." => {}
+            ".." => {
+                out.pop();
+            }
+            c => out.push(c),
+        }
+    }
+    out.join("/")
+}
+
+impl rsass_verif_fs::Backend for MapBackend {
+    fn is_file(&self, path: &std::path::Path) -> bool {
+        self.files.contains_key(&norm_path(path))
+    }
+    fn is_dir(&self, path: &std::path::Path) -> bool {
+        let d = format!("{}/", norm_path(path));
+        self.files.keys().any(|k| k.starts_with(&d))
+    }
+    fn open(&self, path: &std::path::Path) -> std::io::Result<rsass_verif_fs::Opened> {
+        match self.files.get(&norm_path(path)) {
+            Some(d) => Ok(rsass_verif_fs::Opened { reader: Box::new(Cursor::new(d.clone())), is_dir: false, len: d.len() as u64 }),
+            None => Err(std::io::Error::new(std::io::ErrorKind::NotFound, "No such file or directory (mapfs)")),
+        }
+    }
+}
+
+pub fn item_dir(item: &Item) -> String {
+    format!("i{}", vcommon::hex(item.digest()))
+}
+
+pub fn compile(item: &Item, yield_in_loader: bool, shared: &Arc<rsass::input::FsLoader>) -> Res {
+    if item.via_cwd {
+        let r = catch_unwind(AssertUnwindSafe(|| {
+            let loader = SharedFs { inner: shared.clone(), yield_in_loader };
+            let file = SourceFile::scss_bytes(item.input.as_bytes().to_vec(), SourceName::root(format!("{}/input.scss", item_dir(item))));
+            match Context::for_loader(loader).with_format(format_of(item.fmt)).transform(file) {
+                Ok(b) => Res::Ok(String::from_utf8_lossy(&b).into_owned()),
+                Err(e) => Res::Err(e.to_string()),
+            }
+        }));
+        return match r {
+            Ok(r) => r,
+            Err(_) => Res::Panic(vcommon::panichook::last_panic()),
+        };
+    }
     let r = catch_unwind(AssertUnwindSafe(|| {
         let loader = MemLoader {
             mock: Arc::new(item.files.clone()),
@@ -241,13 +313,24 @@ fn execute_here(plan: &ExecPlan) -> ExecResult {
     let sw2 = switches.clone();
     let body = move || {
         fastrand::seed(plan2.fastrand_seed);
+        // the in-memory file system and the one FsLoader that the `via_cwd` items of this execution share
+        let mut files = BTreeMap::new();
+        for it in plan2.tasks.iter().flatten().filter(|it| it.via_cwd) {
+            let d = item_dir(it);
+            for (p, text) in &it.files {
+                files.insert(format!("{d}/{p}"), text.clone().into_bytes());
+            }
+        }
+        let _old = rsass_verif_fs::install(Some(std::rc::Rc::new(MapBackend { files })));
+        let shared = Arc::new(rsass::input::FsLoader::for_cwd());
         let mut handles = vec![];
         for (t, items) in plan2.tasks.iter().cloned().enumerate() {
             let res3 = res2.clone();
             let yl = plan2.yield_in_loader;
+            let shared = shared.clone();
             handles.push(shuttle::thread::spawn(move || {
                 for (k, item) in items.iter().enumerate() {
-                    let r = compile(item, yl);
+                    let r = compile(item, yl, &shared);
                     res3.lock().unwrap_or_else(|e| e.into_inner())[t][k] = Some(r);
                 }
             }));
@@ -255,6 +338,7 @@ fn execute_here(plan: &ExecPlan) -> ExecResult {
         for h in handles {
             let _ = h.join();
         }
+        rsass_verif_fs::install(None);
         *sw2.lock().unwrap_or_else(|e| e.into_inner()) = shuttle::current::context_switches();
     };
     rsass_verif_sync::trace::take();
